@@ -76,6 +76,9 @@ func origin(c cfgSpec, tok string) string {
 		}
 		return "replaced-by-reload"
 	}
+	if why, ok := c.Stale[tok]; ok { // chain_test.go
+		return why
+	}
 	if member(tok, oldTokens) {
 		return "replaced-by-reload"
 	}
@@ -100,6 +103,7 @@ func universeOf(c cfgSpec) []string {
 			add(l)
 		}
 	}
+	add(c.staleTokens())
 	return u
 }
 
@@ -293,6 +297,7 @@ type refInfo struct {
 	Allow   []string
 	Verdict verdict
 	Own     bool // route declares its own tokens
+	DenyAll bool // the list that applies declares members, none of which has a value (chain_test.go)
 }
 
 var pullOps = []string{"dequeue", "ack", "nack", "extend"}
@@ -482,6 +487,7 @@ func refHTTP(cs caseSpec, req *http.Request, delivered []string) refInfo {
 	default:
 		ri.Verdict = vOpen
 	}
+	ri.unresolved(c)
 	return ri
 }
 
@@ -494,6 +500,7 @@ func refGRPC(cs caseSpec) refInfo {
 	ri.Exists = route != "" && isPullOp(cs.Op)
 	ri.Strict = ri.Exists && canonical
 	ri.Verdict = judge(cs.Creds, ri.Allow)
+	ri.unresolved(c)
 	return ri
 }
 
@@ -605,7 +612,7 @@ func failure(cs caseSpec, ri refInfo, o outcome) (kind, msg string) {
 	if (o.Rejected || forbidden) && (o.Changed || o.Leak) {
 		return "refused-but-acted", "the request was answered " + refused + " but queue/config state changed or queue data was returned"
 	}
-	if ri.Scope == "admin" && len(ri.Allow) == 0 {
+	if ri.Scope == "admin" && len(ri.Allow) == 0 && !ri.DenyAll {
 		return "", "" // no admin tokens configured: the property does not constrain the Admin API
 	}
 	switch ri.Verdict {
@@ -676,7 +683,7 @@ func (k *checker) judgeCase(w *world, cs caseSpec) (refInfo, bool) {
 		op = cs.Method
 	}
 	vname := ri.Verdict.String()
-	if ri.Scope == "admin" && len(ri.Allow) == 0 {
+	if ri.Scope == "admin" && len(ri.Allow) == 0 && !ri.DenyAll {
 		vname = "admin-unconfigured"
 	}
 	switch vname {
@@ -744,6 +751,9 @@ func (k *checker) judgeCase(w *world, cs caseSpec) (refInfo, bool) {
 	if hist != "fresh-boot" {
 		key += ":" + hist
 	}
+	if ch := cs.Cfg.Chain; ch != nil {
+		key += "(" + ch.shape() + ")"
+	}
 	if len(cs.Trail) > 0 { // replay of a recorded history-dependent case
 		key += ":history-dependent"
 	}
@@ -794,6 +804,9 @@ func historyText(cs caseSpec) string {
 			h += " was reported as applied"
 		}
 	}
+	if ch := cs.Cfg.Chain; ch != nil {
+		h = ch.describe() + "; the configuration above is what the reference has in force after the last step"
+	}
 	if cs.After != "" {
 		h += fmt.Sprintf("; sent right after a request that presented the valid token %q to the same endpoint", cs.After)
 	}
@@ -839,6 +852,7 @@ func (k *checker) runConfig(spec cfgSpec, slot int) {
 			r.Add("reloads_applied_although_deployment_changed", 1)
 		}
 	}
+	k.countChain(spec)
 	eff := spec.inForce() // lists, deployment and prefixes the rows are built from
 	pp, ap := eff.pullPrefix(), eff.adminPrefix()
 
@@ -1005,7 +1019,7 @@ func (k *checker) compileTable(specs []cfgSpec) {
 
 func TestCheck(t *testing.T) {
 	r := runner.Start("C11", "exploration")
-	k := &checker{r: r, stats: map[string]int64{}, once: map[string]bool{}, deadline: r.Deadline(60*time.Second, 10*time.Minute)}
+	k := &checker{r: r, stats: map[string]int64{}, once: map[string]bool{}, deadline: r.Deadline(75*time.Second, 15*time.Minute)}
 
 	if p := runner.ReplayPath(); p != "" {
 		replay(k, p)
@@ -1018,6 +1032,8 @@ func TestCheck(t *testing.T) {
 	// reload as a dimension: (A -> B) worlds, see reload_test.go
 	behav = append(behav, reloadPairs(r)...)
 	k.compileTable(append(append([]cfgSpec{}, behav...), compileOnlyConfigs(r)...))
+	// reload chains over file:/env: token sources, failed reloads included, see chain_test.go
+	behav = append(behav, chainSpecs(r)...)
 
 	// 2. behavioural table on every configuration the compiler must accept
 	var bootable []cfgSpec
@@ -1061,8 +1077,13 @@ func TestCheck(t *testing.T) {
 	if n := r.Counter("reloads_rejected_although_only_tokens_changed"); n > 0 {
 		r.NotExhaustive(fmt.Sprintf("%d reloads that only edit token lists were rejected by the tree; their rows were judged against the configuration that stayed in force", n))
 	}
+	if n := r.Counter("chain_steps_refused_although_every_source_resolvable"); n > 0 {
+		r.NotExhaustive(fmt.Sprintf("%d reloads of a reload chain were refused by the tree although every referenced token source could be resolved; the table was judged against what stayed in force", n))
+	}
 	if !k.stopped {
-		for _, c := range []string{"reloads_applied", "reloads_rejected_restart_required", "primers_passed"} {
+		for _, c := range []string{"reloads_applied", "reloads_rejected_restart_required", "primers_passed",
+			"chain_steps_applied", "chain_steps_refused_source_unresolvable", "chains_ending_in_refused_reload",
+			"chains_with_rotated_content_loaded_by_reload_of_unchanged_file", "chains_with_refused_reload_retried_after_providing_the_source"} {
 			if r.Counter(c) == 0 {
 				r.Infra("vacuous table: counter %s is zero", c)
 			}
@@ -1113,7 +1134,8 @@ func TestCheck(t *testing.T) {
 	r.Set("admin_without_tokens", adminOpen)
 	r.Set("configs_behavioural", len(bootable))
 	r.Set("reload_pairs_rule", "(A -> B): boot A through startServers, reload B through reloadConfig, run the complete table of the configuration in force. base = the 18 compiling configurations of global{-,g1,g1+g2} x routeA{-,a1} x routeB{-,b1} x admin{-,t1}. quick: all ordered pairs of base that differ in exactly one list (74); thorough: all 324 ordered pairs of base (identical reload included; the 250 pairs that are not in quick run the quick-size table); both tiers: reload from the all-old-tokens configuration (every list replaced) to each of the 18. Restart-required direction: for every ordered pair of different deployments (split/prefix/shared) boot A (quick: 2, thorough: all 18 of base, the 16 additional ones with the quick-size table), reload inverse(A) (every list differs) in the other deployment: the tree must reject it and A's table must be fully in force, B's tokens worthless")
-	r.Set("rule", "nested loops, nothing sampled: token configuration (global × route A × route B × admin lists [× alphabet × deployment × token source in thorough], each compiled from DSL text and booted through the production startServers) × how it came into force (fresh boot | reload from another configuration applied | reload rejected, see reload_pairs_rule) × history on the authorizer (none | right after a harmless request with a valid token to the same endpoint; deny rows of fresh-boot and reload-from-old worlds; thorough: every member of the allowlist as the valid token) × surface (Pull HTTP handler, Worker gRPC server over the in-memory listener, Admin HTTP handler) × endpoint spelling × operation/method × credential column (derived from every member of the effective allowlist plus every other token of the alphabet). Each row runs on the seeded store (queued/leased/dead/canceled message per route, lease ids known) and is compared with the reference allowlist rule; the full state dump (all message fields, stats, config file, management labels) must be identical after an unauthorised row. distinct = (surface, operation/method, credential class, reference verdict, strict/lenient spelling); trivial rows (compile-only) are keyed separately.")
+	r.Set("reload_chains_rule", "history = start state + 1..3 steps, each step followed by ONE production reload, then the complete table of what the reference has in force; every prefix of a history is a history. Tokens are file:/env: references, so their values live outside the Hookaidofile. focus list L with focus source s: route A [s] | route B [s] | global [g1,s] | admin [s] (context: global [g1], admin [t1], route A [a1], B on the global list). start: (L references s, content v1) | (not referenced, unresolvable) | (not referenced, v1). step: edit (L gains/loses s in the Hookaidofile) | edit-other (another route list gains/loses a member) | set:v1|v2|bad (content of s changes, Hookaidofile untouched) | reload (nothing changes). quick: file:/missing with focus A, global, admin and env:/unset with focus A, first two starts, every history of 1..2 steps (240 worlds). thorough: file:/missing all four focus lists x three starts x every history of 1..3 steps; env:/unset the same with 1..2 steps; file empty | blank | directory and variable empty: every history of 1..2 steps in which the source is unresolvable at some point. Reference: an applied reload puts the lists of the Hookaidofile as it is now with the source contents as they are now in force; a refused reload changes nothing (lists and resolved values of the last applied load stay); applied/refused is the tree's return value. Credential column: plus every earlier / refused / never-loaded content (other-token:rotated-out | replaced-by-reload | of-refused-config | never-loaded)")
+	r.Set("rule", "nested loops, nothing sampled: token configuration (global × route A × route B × admin lists [× alphabet × deployment × token source in thorough], each compiled from DSL text and booted through the production startServers) × how it came into force (fresh boot | reload from another configuration applied | reload rejected, see reload_pairs_rule | a chain of 1..3 reloads over file:/env: token sources with content rotation and failing reloads, see reload_chains_rule) × history on the authorizer (none | right after a harmless request with a valid token to the same endpoint; deny rows of fresh-boot and reload-from-old worlds; thorough: every member of the allowlist as the valid token) × surface (Pull HTTP handler, Worker gRPC server over the in-memory listener, Admin HTTP handler) × endpoint spelling × operation/method × credential column (derived from every member of the effective allowlist plus every other token of the alphabet). Each row runs on the seeded store (queued/leased/dead/canceled message per route, lease ids known) and is compared with the reference allowlist rule; the full state dump (all message fields, stats, config file, management labels) must be identical after an unauthorised row. distinct = (surface, operation/method, credential class, reference verdict, strict/lenient spelling); trivial rows (compile-only) are keyed separately.")
 	r.Assume("docs define the credential as 'Authorization: Bearer <token>' only; scheme spelled in another case, extra blanks around scheme/token and several Authorization values are undefined: either outcome is accepted when at least one value carries a member of the effective allowlist (observed: HTTP authorizers look at the first value and want the exact scheme, the gRPC authorizer accepts any value and any scheme case) — recorded in undefined_by_docs_outcomes; when no value carries a member the row is a plain deny row")
 	r.Assume("401/Unauthenticated is demanded for the canonical spelling of a configured endpoint+operation (Pull: POST {endpoint}/{dequeue,ack,nack,extend}; Admin: the path×method pairs of docs/admin-api.md). For endpoints no route declares, deviating path spellings, unknown operations and non-listed methods only 'no effect, no data, no success answer' is demanded (the tree answers 401, 404 or 405 there; see lenient_case_status_codes)")
 	r.Assume("when admin_api declares no tokens the property does not constrain the Admin API; those rows are executed and counted (admin_without_tokens) but not judged")
@@ -1121,6 +1143,7 @@ func TestCheck(t *testing.T) {
 	r.Assume("HTTP requests are parsed by net/http's http.ReadRequest, as the production http.Server would; the reference judges the Authorization values as delivered to the handler. TLS/mTLS listeners are not exercised (tokens are independent of the transport credentials)")
 	r.Assume("state = MemoryStore (fixed clock, no retention) + config file + management labels; runtime metrics counters are not queue state")
 	r.Assume("which configuration is in force after a reload is taken from the return value of the production reload (the tree's own statement); the docs' rule (token edits apply live, listener/prefix/shared-listener changes are rejected and the previous configuration stays active) is used for the vacuity guards: a rejected token-only reload ends the run as non-exhaustive, never as a violation. Reload through SIGHUP/--watch/management mutation all end in the same reloadConfig/applyCompiled; the management-mutation path is exercised only as authorised PUT/DELETE rows, not as a history before the table")
+	r.Assume("reload chains: the value of a file:/env: token reference is what the source holds when the configuration is loaded (start-up and every reload: docs/security.md secret references, docs/configuration.md 'Startup/reload'); a content change without a reload is not judged (no table is run between the change and the next reload). A reload that the tree applies although a declared token cannot be resolved is judged as 'that member has no value': a list all of whose declared members lack a value admits nobody and still replaces the global list (does not occur on the unchanged tree: chain_steps_applied_although_a_source_is_unresolvable = 0). vault: references are not exercised (no Vault in the sandbox)")
 	r.Assume("overlapping requests: the sequential table cannot see state shared between in-flight requests of one authorizer; that is the free-running -race side pass (TestRace: valid and same-length/prefix/suffix/foreign invalid credentials presented concurrently to the same authorizer on the Pull HTTP, Worker gRPC and Admin surfaces, for authorizers built by start-up, by a reload and during a reload). It detects unsynchronised sharing (data race); a wrongly synchronised but still shared buffer would need the controlled scheduler and is not covered")
 	r.Finish()
 }
